@@ -275,7 +275,7 @@ Definition w_case_k3 : c15case :=
 Lemma spec_witnesses :
   spec_C15 w_case_k1 (run_C15 w_case_k1) = true /\ spec_C15 w_case_k2 (run_C15 w_case_k2) = true /\
   spec_C15 w_case_k3 (run_C15 w_case_k3) = true /\
-  map fst (run_inst_obs empty_model empty_model false [(true, mkS false w_w1); (false, mkS false (mkV 2 [(2, [mkED 1 false true [fS 1] []])])); (true, mkS false w_w1)] []) = [true; false; true].
+  map fst (run_inst_obs empty_model empty_model false None [(true, mkS false w_w1); (false, mkS false (mkV 2 [(2, [mkED 1 false true [fS 1] []])])); (true, mkS false w_w1)] []) = [true; false; true].
 Proof. repeat split; vm_compute; reflexivity. Qed.
 
 (* ------------------------------------------------------------------ readers that address values by identifier *)
@@ -356,11 +356,11 @@ Proof.
   intros n Hin. rewrite Forall_forall in Hw. apply (Hw n Hin).
 Qed.
 
-Theorem run_inst_chain : forall steps os stored mem running,
+Theorem run_inst_chain : forall steps os stored mem running base,
   wf_model (m_nss stored) -> (running = true -> mem = stored) ->
-  inst_chain stored (run_inst_obs stored mem running steps os).
+  inst_chain stored (run_inst_obs stored mem running base steps os).
 Proof.
-  induction steps as [|[is_start s] steps IH]; intros os stored mem running Hwf Hmem; cbn [run_inst_obs]; [exact I|].
+  induction steps as [|[is_start s] steps IH]; intros os stored mem running base Hwf Hmem; cbn [run_inst_obs]; [exact I|].
   destruct (negb is_start && negb running) eqn:Hskip.
   - cbn [inst_chain]. split; [reflexivity | apply IH; assumption].
   - set (o := oracle_of (hd (mkOT [] [] []) os)).
@@ -388,8 +388,15 @@ Definition w_case_storage : c15case :=
 Lemma storage_witness :
   snd (upd zero_oracle false (fst (upd zero_oracle false empty_model w_ix1)) w_ix_clash) = None /\
   storage_refuses w_ix_clash = true /\ storage_refuses w_ix3 = false /\
-  map fst (run_inst_obs empty_model empty_model false
+  map fst (run_inst_obs empty_model empty_model false None
              [(true, mkS false w_ix1); (false, mkS false w_ix_clash); (false, mkS false w_ix3); (true, mkS false w_ix_clash); (true, mkS false w_ix3)] [])
     = [true; false; true; false; true] /\
-  spec_C15 w_case_storage (run_C15 w_case_storage) = true.
+  spec_C15 w_case_storage (run_C15 w_case_storage) = true /\ known_C15 w_case_storage = [].
 Proof. repeat split; vm_compute; reflexivity. Qed.
+
+(* finding class 4, judged by the functions the harness evaluates: E1 has rows, a later version
+   gives it `f2: Boolean default true` *)
+Definition w_bool : version := mkV 2 [(2, [mkED 1 false true [fS 1; mkFD 2 TBool (Some 1) false false] []])].
+Definition w_case_bool : c15case := CInst [(true, mkS false w_v1); (false, mkS false w_bool)] [w_none; w_none].
+Lemma bool_default_witness : spec_C15 w_case_bool (run_C15 w_case_bool) = false /\ known_C15 w_case_bool = [4%Z].
+Proof. split; vm_compute; reflexivity. Qed.
